@@ -92,6 +92,7 @@ theorem afterSize_ne (c : Cfg) (p a id cid : Nat) :
 theorem afterLdRunS_ne (v : Bool) : afterLdRunS v ≠ .sLd ∧ afterLdRunS v ≠ .wInit ∧ (afterLdRunS v = .sSt → v = true) := by
   cases v <;> simp [afterLdRunS]
 
+set_option maxHeartbeats 1000000 in
 /-- the entry points `sLd`, `sSt`, `wInit` are entered only where the code enters them -/
 theorem entry_frame {c : Cfg} {s s' : State} {t : Nat} {lb : Lbl} (h : StepCase c s t lb s')
     (hwf : PcWF c (s.pc t)) :
@@ -112,12 +113,260 @@ theorem entry_frame {c : Cfg} {s s' : State} {t : Nat} {lb : Lbl} (h : StepCase 
     intro p k hp; rw [hp] at hwf; exact cont_ne c none k hwf
   cases h
   all_goals (try simp only [exec_proj, upd_same] at *)
+  case sLd hpc => have h9 := h8 s.running; exact ⟨fun hx => absurd hx h9.1, fun hx => ⟨hpc, h9.2.2 hx⟩, h9.2.1⟩
+  case submitIn => have := h6 (s.scope t == 0); simp_all
+  case rSz1 => have := h7; simp_all
+  case sJoinW => have := h5; simp_all
   all_goals first
     | (simp_all; done)
     | (simp_all [afterLdRunS, afterLdRunB, afterJoinW, afterSubmit, afterSize]; done)
     | (rename_i k _ _ _; have := hne _ k (by assumption); simp_all; done)
     | (rename_i hpc; rcases hpc with hpc | ⟨k, hpc⟩ <;> cases hrun : s.running <;> simp_all [afterLdRunB]; done)
     | (refine ⟨?_, ?_, ?_⟩ <;> (try split) <;> simp_all [afterLdRunS, afterLdRunB, afterJoinW, afterSubmit, afterSize]; done)
-    | (trace_state; sorry)
+
+theorem popctx_role (ctx : PopCtx) : ctx.role = .worker ∨ ctx.role = .bal := by cases ctx <;> simp [PopCtx.role]
+
+/-- closing tactic of the per-case goals: normalise projections of the successor state, then `grind` -/
+macro "exec_close" : tactic => `(tactic| (
+  (try simp only [exec_proj, upd_same] at *)
+  first
+    | done
+    | grind [upd, Pc.role, Pc.inTask, claimPc, dispatchPc, PopCtx.onEmpty, PopCtx.role, PopCtx.queue, afterLdRunS,
+        afterLdRunB, afterJoinW, afterSubmit, afterSize, slotAvailable, role_chk, popctx_role]))
+
+section
+variable {c : Cfg} {s s' : State} {t : Nat} {lb : Lbl}
+
+theorem Inv1.step_r3 (I : Inv1 c s) (h : StepCase c s t lb s') :
+    ∀ u, (s'.pc u).role = .stopper → s'.stopper = some u := by
+  intro u hr
+  have hfr := pc_frame h
+  have h3 := I.r3 u
+  have h6 := I.r6
+  by_cases hu : u = t
+  · subst hu
+    clear hfr I
+    cases h <;> exec_close
+  · rw [hfr u hu] at hr
+    have h3' := h3 hr
+    clear hfr I
+    cases h <;> exec_close
+
+theorem Inv1.step_r6 (I : Inv1 c s) (h : StepCase c s t lb s') : s'.stopCalled = false → s'.stopper = none := by
+  have h6 := I.r6
+  clear I
+  cases h <;> exec_close
+
+theorem Inv1.step_run0 (I : Inv1 c s) (h : StepCase c s t lb s') : s'.stopCalled = false → s'.running = true := by
+  have h0 := I.run0
+  have h3 := I.r3 t
+  have h6 := I.r6
+  clear I
+  cases h <;> exec_close
+
+theorem Inv1.step_run1 (I : Inv1 c s) (h : StepCase c s t lb s') :
+    ∀ u, s'.pc u = .sLd ∨ s'.pc u = .sSt → s'.running = true := by
+  intro u hr
+  have hfr := pc_frame h
+  have he := entry_frame h (I.wf t)
+  have h0 := I.run0
+  by_cases hu : u = t
+  · subst hu
+    rcases running_frame h with h1 | h1
+    · rw [h1]
+      rcases hr with hr | hr
+      · exact h0 (he.1 hr).2
+      · exact (he.2.1 hr).2
+    · have := afterStore_ne c
+      rw [h1.2.2] at hr
+      rcases hr with hr | hr
+      · exact absurd hr this.1
+      · exact absurd hr this.2
+  · rw [hfr u hu] at hr
+    have h1 := I.run1 u hr
+    rcases running_frame h with h2 | h2
+    · rw [h2]; exact h1
+    · -- two threads inside stop(): impossible, there is one stopper
+      exfalso
+      have ht : (s.pc t).role = .stopper := by rw [h2.1]; rfl
+      have hu' : (s.pc u).role = .stopper := by rcases hr with hr | hr <;> (rw [hr]; rfl)
+      have := I.r3 t ht
+      have := I.r3 u hu'
+      simp_all
+
+theorem Inv1.step_o1 (I : Inv1 c s) (h : StepCase c s t lb s') :
+    ∀ k w, s'.owner k = some w → s'.own w = some k := by
+  intro k w how
+  have o1 := I.o1
+  have o3 := I.o3
+  rcases own_frame h with h1 | ⟨k0, hpc, hav, h1, h2, _⟩
+  · rw [h1.1]; rw [h1.2] at how; exact o1 k w how
+  · rw [h1]; rw [h2] at how
+    simp only [upd_apply] at *
+    by_cases hk : k = k0
+    · simp [hk] at how; subst how; simp [hk]
+    · simp [hk] at how
+      have := o1 k w how
+      by_cases hw : w = t
+      · subst hw; rw [o3 _ hpc] at this; cases this
+      · simp [hw, this]
+
+theorem Inv1.step_o2 (I : Inv1 c s) (h : StepCase c s t lb s') :
+    ∀ w k, s'.own w = some k → (s'.pc w).role = .worker → s'.owner k = some w := by
+  intro w k hown hr
+  have hfr := pc_frame h
+  have hrole := role_step h
+  have o2 := I.o2
+  have o1 := I.o1
+  have o3 := I.o3
+  have hold : s.pc w ≠ .exited := by
+    intro hx
+    by_cases hw : w = t
+    · subst hw; cases h <;> simp_all
+    · rw [hfr w hw] at hr; rw [hx] at hr; simp [Pc.role] at hr
+  have hr' : s.own w = some k → (s.pc w).role = .worker := by
+    intro _
+    by_cases hw : w = t
+    · subst hw
+      rcases hrole with h1 | h1 | h1
+      · exact h1 ▸ hr
+      · rw [h1] at hr; simp [Pc.role] at hr
+      · exact absurd hr h1.2.2.2.1
+    · rw [hfr w hw] at hr; exact hr
+  rcases own_frame h with h1 | ⟨k0, hpc, hav, h1, h2, hrw, hnw⟩
+  · rw [h1.2]; rw [h1.1] at hown; exact o2 w k hown (hr' hown)
+  · rw [h2]; rw [h1] at hown
+    simp only [upd_apply] at *
+    by_cases hw : w = t
+    · subst hw; simp at hown; subst hown; simp
+    · simp [hw] at hown
+      have hwk := o2 w k hown (hr' hown)
+      by_cases hk : k = k0
+      · subst hk
+        -- the slot was available: its owner `w` has exited, but `w` is a live worker
+        simp [slotAvailable, hwk] at hav
+        exact absurd hav hold
+      · simp [hk, hwk]
+
+theorem Inv1.step_o3 (I : Inv1 c s) (h : StepCase c s t lb s') : ∀ w, s'.pc w = .wInit → s'.own w = none := by
+  intro w hw
+  have hfr := pc_frame h
+  have he := entry_frame h (I.wf t)
+  by_cases hu : w = t
+  · subst hu; exact absurd hw he.2.2
+  · rw [hfr w hu] at hw
+    have := I.o3 w hw
+    rcases own_frame h with h1 | ⟨k0, hpc, hav, h1, h2, _⟩
+    · rw [h1.1]; exact this
+    · rw [h1]; simp [upd_apply, hu, this]
+
+theorem Inv1.step_o4 (I : Inv1 c s) (h : StepCase c s t lb s') :
+    ∀ w, (s'.pc w).role = .worker → s'.pc w ≠ .wInit → s'.own w ≠ none := by
+  intro w hr hne
+  have hfr := pc_frame h
+  have hrole := role_step h
+  have o4 := I.o4
+  by_cases hu : w = t
+  · subst hu
+    by_cases hi : s.pc w = .wInit
+    · clear hrole hfr I o4; cases h <;> simp_all
+    · have hwk : (s.pc w).role = .worker := by
+        rcases hrole with h3 | h3 | h3
+        · exact h3 ▸ hr
+        · rw [h3] at hr; simp [Pc.role] at hr
+        · exact absurd hr h3.2.2.2.1
+      have := o4 w hwk hi
+      rcases own_frame h with h1 | ⟨k0, hpc, _⟩
+      · rw [h1.1]; exact this
+      · exact absurd hpc hi
+  · rw [hfr w hu] at hr hne
+    have := o4 w hr hne
+    rcases own_frame h with h1 | ⟨k0, hpc, hav, h1, h2, _⟩
+    · rw [h1.1]; exact this
+    · rw [h1]; simp [upd_apply, hu]; exact this
+
+theorem Inv1.step_sc (I : Inv1 c s) (h : StepCase c s t lb s') : ∀ u, (s'.pc u).inTask = false → s'.scope u = 0 := by
+  intro u hin
+  have hfr := pc_frame h
+  have hsc := I.sc
+  rcases scope_frame h with h1 | ⟨v, h1, h2, h3⟩
+  · rw [h1]
+    by_cases hu : u = t
+    · subst hu
+      by_cases hold : (s.pc u).inTask = false
+      · exact hsc u hold
+      · -- the thread leaves the task: only `done`, which requires scope 0
+        clear hfr I hsc
+        cases h
+        case bLdRun hpc => rcases hpc with hpc | ⟨k, hpc⟩ <;> simp_all [Pc.inTask]
+        all_goals simp_all [Pc.inTask]
+    · rw [hfr u hu] at hin; exact hsc u hin
+  · rw [h3]
+    by_cases hu : u = t
+    · subst hu; rw [h2] at hin; cases hin
+    · rw [hfr u hu] at hin; simp [upd_apply, hu]; exact hsc u hin
+
+theorem Inv1.step (I : Inv1 c s) (h : StepCase c s t lb s') : Inv1 c s' := by
+  have hfr := pc_frame h
+  have hrole := role_step h
+  refine ⟨?_, ?_, ?_, I.step_r3 h, ?_, ?_, I.step_r6 h, I.step_run0 h, I.step_run1 h, I.step_o1 h, I.step_o2 h,
+    I.step_o3 h, I.step_o4 h, I.step_sc h⟩
+  · -- wf
+    intro u
+    by_cases hu : u = t
+    · subst hu; exact wf_step h (I.wf _)
+    · rw [hfr u hu]; exact I.wf u
+  · -- r1
+    intro u hr
+    by_cases hu : u = t
+    · subst hu
+      rcases hrole with h1 | h1 | h1
+      · exact I.r1 _ (h1 ▸ hr)
+      · rw [h1] at hr; simp [Pc.role] at hr
+      · exact absurd hr h1.2.2.2.1
+    · rw [hfr u hu] at hr; exact I.r1 u hr
+  · -- r2
+    intro u hr
+    by_cases hu : u = t
+    · subst hu
+      rcases hrole with h1 | h1 | h1
+      · exact I.r2 _ (h1 ▸ hr)
+      · rw [h1] at hr; simp [Pc.role] at hr
+      · exact absurd hr h1.2.2.2.2
+    · rw [hfr u hu] at hr; exact I.r2 u hr
+  · -- r4
+    intro u hw
+    by_cases hu : u = t
+    · subst hu
+      rcases I.r4 _ hw with h4 | h4
+      · rcases hrole with h1 | h1 | h1
+        · exact Or.inl (h1 ▸ h4)
+        · exact Or.inr h1
+        · exact absurd h4 h1.2.1
+      · clear hrole hfr I
+        cases h <;> simp_all
+    · rw [hfr u hu]; exact I.r4 u hw
+  · -- r5
+    intro u hb
+    by_cases hu : u = t
+    · subst hu
+      rcases I.r5 _ hb with h4 | h4
+      · rcases hrole with h1 | h1 | h1
+        · exact Or.inl (h1 ▸ h4)
+        · exact Or.inr h1
+        · exact absurd h4 h1.2.2.1
+      · clear hrole hfr I
+        cases h <;> simp_all
+    · rw [hfr u hu]; exact I.r5 u hb
+
+end
+
+/-- `Inv1` holds in every reachable state -/
+theorem Inv1.reachable (c : Cfg) (hc : c.WF) (s : State) (h : Reachable (· = State.init c) (Step c) s) : Inv1 c s := by
+  refine Reachable.invariant (Inv1 c) ?_ ?_ s h
+  · intro s hs; subst hs; exact Inv1.init c hc
+  · intro s s' hI hstep
+    obtain ⟨t, lb, hst⟩ := hstep
+    exact hI.step (step_cases hst)
 
 end Babylon.Exec
